@@ -129,6 +129,70 @@ Theorem members_same_after_sfx_decoy : forall mktime junk P A m d p f l k1 k2,
 Proof. exact P_KindIndepSfx.members_same_after_sfx_decoy. Qed.
 
 
+(* ====== the command-line tool ====== *)
+(* The same at the level of the TOOL (CliMain.v: lha_main, from argv, standard
+   input and a filesystem to stdout, stderr, exit status and the final
+   filesystem with its trace).  Proofs in P_CliKindIndep.v (a simulation through
+   src/extract.c, src/filter.c, src/list.c and src/main.c over the per-call
+   lemmas of P_KindIndepReader.v); instances and the two counterexamples in
+   P_CliKindIndepEx.v.  [stdin_kind] is the fifth argument of lha_main: whether
+   fseek works on standard input (KFile: a redirected file) or not (KPipe). *)
+From Lhasa Require Import ListOut CliMain P_CliKindIndep.
+
+(* A.  Every command line (l v t p x e, every option, every pattern), every
+   filesystem: the result record is the same for any two kinds of standard
+   input; the archive, when it is "-", below 2^40 bytes. *)
+Theorem cli_stdin_kind_irrelevant : forall mktime junk localtime now strerror k1 k2 argv stdin s,
+  nlen stdin < 1099511627776 ->
+  lha_main mktime junk localtime now k1 strerror argv stdin s =
+  lha_main mktime junk localtime now k2 strerror argv stdin s.
+Proof. exact P_CliKindIndep.cli_stdin_kind_irrelevant. Qed.
+
+(* B.  The archive by NAME (standard input S free) against "-" with the archive
+   on standard input, same command, options and patterns, on the same
+   filesystem s in which NAME opens as a readable file with contents A and
+   modification time mt: the same result record (the tool prints the archive's
+   name only when it cannot open it; the filesystems start equal, so they end
+   equal, archive file included).  Provisos, both necessary
+   (P_CliKindIndepEx.cx_mtime_needed, cx_prompt_needed):
+   - l / v print the archive's modification time in the footer, and the model
+     prints [now] for "-" (CliMain.v: the time of "-" is not modelled) and for
+     mt = 0: so mt = 0 or mt = now;
+   - with "-" the overwrite prompt reads its answer from the archive stream,
+     not from S: so the run must not be able to prompt (not x/e, or dry run,
+     or options f / q). *)
+Theorem cli_named_file_vs_stdin : forall mktime junk localtime now strerror k k' argv1 argv2 mode o file filters S A mt s,
+  parse_main (tl argv1) = Some (mode, o, file, filters) ->
+  parse_main (tl argv2) = Some (mode, o, [45], filters) ->
+  is_dash file = false ->
+  fs_fopen_rb s file = OpenFile A mt ->
+  nlen A < 1099511627776 ->
+  (mode = MODE_LIST \/ mode = MODE_LIST_VERBOSE -> mt = 0 \/ mt = now) ->
+  (mode = MODE_EXTRACT -> o_dry_run o = false -> o_overwrite_policy o <> LHA_OVERWRITE_PROMPT) ->
+  lha_main mktime junk localtime now k strerror argv1 S s =
+  lha_main mktime junk localtime now k' strerror argv2 A s.
+Proof. exact P_CliKindIndep.cli_named_file_vs_stdin. Qed.
+
+(* C.  The filesystem holds P ++ A under NAME1 and A under NAME2, P a quiet
+   prefix (or, cli_sfx_decoy_irrelevant, a stub with one marker and one decoy
+   header): the same result record for either name, prompts included (standard
+   input is the same and is not the archive).  For l / v the time shown in the
+   footer ([shown_mtime now mt] = now when mt = 0, else mt) must agree. *)
+Theorem cli_sfx_prefix_irrelevant :
+  ltac:(let t := type of P_CliKindIndep.cli_sfx_prefix_irrelevant in exact t).
+Proof. exact P_CliKindIndep.cli_sfx_prefix_irrelevant. Qed.
+
+Theorem cli_sfx_decoy_irrelevant :
+  ltac:(let t := type of P_CliKindIndep.cli_sfx_decoy_irrelevant in exact t).
+Proof. exact P_CliKindIndep.cli_sfx_decoy_irrelevant. Qed.
+
+(* ... and with both on standard input through any two kinds, when the run
+   cannot prompt *)
+Theorem cli_sfx_prefix_stdin :
+  ltac:(let t := type of P_CliKindIndep.cli_sfx_prefix_stdin in exact t).
+Proof. exact P_CliKindIndep.cli_sfx_prefix_stdin. Qed.
+
+
 Print Assumptions sfx_prefix_skipped.
 Print Assumptions sfx_one_decoy.
 Print Assumptions scan_independent_of_kind.
@@ -139,3 +203,8 @@ Print Assumptions skip_truncated_differs_in_flag_only.
 Print Assumptions members_same_for_all_kinds.
 Print Assumptions members_same_after_sfx_prefix.
 Print Assumptions members_same_after_sfx_decoy.
+Print Assumptions cli_stdin_kind_irrelevant.
+Print Assumptions cli_named_file_vs_stdin.
+Print Assumptions cli_sfx_prefix_irrelevant.
+Print Assumptions cli_sfx_decoy_irrelevant.
+Print Assumptions cli_sfx_prefix_stdin.
